@@ -90,6 +90,10 @@ impl<'a> StringLexer<'a> {
                                 break;
                             }
                         }
+                        if self.get_offset() == _start {
+                            // not an escape of Table 3: ignore the backslash, keep the character
+                            return self.next_lexeme();
+                        }
                         Some(char_code as u8)
                     }
                 }
